@@ -451,7 +451,7 @@ def main(modname, tier, seed):
         exhaustive=False,
         known_finding_hits=dict(total.known_hits),
         violations_found=replays,
-        harness_problems=[p[:400] for p in problems],
+        harness_problems=[(p if len(p) < 1600 else p[:300] + ' ... ' + p[-1200:]) for p in problems],
     )
     cov.update(extra)
     ev = dict(property_id=prop, tier=tier, seed=seed, level=getattr(mod, 'LEVEL', 'exploration'),
